@@ -354,6 +354,12 @@ def coq_sources():
     return [os.path.relpath(f, COQ) for f in fs]
 
 
+def harness_fault(obs):
+    """True when the innermost frame of the recorded traceback lies in the harness itself"""
+    files = re.findall(r'File "([^"]+)", line \d+', obs.get("trace", "") or "")
+    return bool(files) and files[-1].startswith(os.path.join(VERIF, "harness") + os.sep)
+
+
 class FileLock:
     """blocking advisory lock: checks may be started side by side (the Makefile is regenerated by each of them, and two runs of the same
     check share their generated case files)"""
@@ -682,6 +688,11 @@ class Check:
         oracle_fail, terms, idx = [], [], []
         for i, (c, o) in enumerate(results):
             if "exception" in o:
+                if harness_fault(o):
+                    # the exception was raised by code of this harness (a generated problem, a recorder), not by the implementation: the
+                    # check could not run this case - a broken check, never a failing input
+                    self.oracle_crashes = getattr(self, "oracle_crashes", []) + ["%s: harness code raised %s" % (case_hash(c), o["exception"])]
+                    continue
                 msg = self.on_exception(c, o)
                 if msg:
                     oracle_fail.append((i, msg))
@@ -779,7 +790,7 @@ class Check:
         if not ok_build:
             for i, (c, o) in enumerate(results):
                 try:
-                    msg = self.on_exception(c, o) if "exception" in o else self.oracle(c, o)
+                    msg = (None if harness_fault(o) else self.on_exception(c, o)) if "exception" in o else self.oracle(c, o)
                 except Exception as e:
                     msg = None
                     self.oracle_crashes = getattr(self, "oracle_crashes", []) + ["%s: %r" % (case_hash(c), e)]
@@ -928,7 +939,7 @@ class Check:
                 n += 1
                 o = self.safe_run(c)
                 try:
-                    msg = self.on_exception(c, o) if "exception" in o else self.oracle(c, o)
+                    msg = (None if harness_fault(o) else self.on_exception(c, o)) if "exception" in o else self.oracle(c, o)
                 except Exception as e:
                     msg = None
                 if msg and not self.known_in_search(c, o, msg):
